@@ -214,7 +214,7 @@ prop("C04", ["stack_gou_glue", "proto_glue", "plain_get_env", "plain_touch_env",
 prop("C05", ["c05_cleanup_temp_vanish", "proto_glue", "plain_get_env", "plain_touch_env", "raw_apply_update_evict_a_moveback_b", "raw_collect_a_temp", "raw_ops_sanity_twin"],
      ["plain_write_missing_dir_env", "plain_set_env", "plain_put_env", "sharded_set_absent_env", "raw_collect_ab_sub", "sharded_set_in_secondary"],
      outside=["adversarial deletion of young temp files (excluded by the property)"], assumptions=COMMON_ASSUME + [RELY])
-prop("C06", ["plain_get_env", "plain_touch_env", "plain_ops_sanity_twin"],
+prop("C06", ["proto_glue", "plain_get_env", "plain_touch_env", "plain_ops_sanity_twin"],
      ["plain_set_env", "plain_put_env", "sharded_set_absent_env"],
      outside=["blocking inside the kernel", "step bounds are asserted as call-count constants under every environment answer, with unwinding assertions on"],
      assumptions=COMMON_ASSUME + [RELY])
